@@ -864,3 +864,149 @@ Proof.
     destruct (merge_all ext true dflt ns ks1 rest) as [[ks2 w2]| | |] eqn:Hr; try discriminate.
     injection H as <- <-. rewrite (proj2 (merge_suppressed_mut _ _ _) _ _ _ _ _ Hk), (IH _ _ _ Hr). reflexivity.
 Qed.
+
+(** * C07: a successful merge means no group/value mismatch *)
+Definition bk_at (b : bk) (q : list key) : option bk :=
+  match q with [] => Some b | _ => match b with BSub _ ks => bks_at ks q | _ => None end end.
+Definition tree_at (t : tree) (q : list key) : option tree :=
+  match q with [] => Some t | _ => match t with Group g => forest_at g q | _ => None end end.
+Definition bk_is_group (b : bk) : bool := match b with BSub _ _ => true | BValue _ _ => false end.
+Definition kind_ok (b : bk) (t : tree) : bool :=
+  match t with Leaf _ => negb (bk_is_group b) | Group _ => bk_is_group b | Null => true end.
+
+Lemma bks_at_cons : forall k b r k0 q,
+  bks_at (BCons k b r) (k0 :: q) = if k0 =? k then bk_at b q else bks_at r (k0 :: q).
+Proof.
+  intros k b r k0 q. unfold bk_at. cbn [bks_at bks_get]. destruct (k0 =? k); [|reflexivity].
+  destruct q; [reflexivity|]. destruct b; reflexivity.
+Qed.
+Lemma forest_at_cons : forall f k q,
+  forest_at f (k :: q) = match forest_get f k with Some t => tree_at t q | None => None end.
+Proof.
+  intros f k q. unfold tree_at. cbn [forest_at]. destruct (forest_get f k) as [t|]; [|reflexivity].
+  destruct q; [reflexivity|]. destruct t; reflexivity.
+Qed.
+
+Lemma merge_ok_kinds_mut : forall suppress top dt ns,
+  (forall b v path b' ws, merge_value suppress top dt ns b v path = Ok (b', ws) ->
+     forall q b0 t, bk_at b q = Some b0 -> tree_at v q = Some t -> kind_ok b0 t = true)
+  /\ (forall ks f path ks' ws, merge_keys suppress top dt ns ks f path = Ok (ks', ws) ->
+     forall q b0 t, bks_at ks q = Some b0 -> forest_at f q = Some t -> kind_ok b0 t = true).
+Proof.
+  intros suppress top dt ns. apply bk_bks_mutind.
+  - intros p d v path b' ws H q b0 t Hb Ht. cbn [merge_value] in H.
+    destruct q as [|k q]; [|discriminate]. cbn [bk_at tree_at] in Hb, Ht. injection Hb as <-. injection Ht as <-.
+    destruct v; [reflexivity | reflexivity | discriminate].
+  - intros fk ks IH v path b' ws H q b0 t Hb Ht. cbn [merge_value] in H.
+    destruct v as [x| |g]; [discriminate| |]; unfold finish_locale in H.
+    + destruct q as [|k q]; [|discriminate]. cbn [bk_at tree_at] in Hb, Ht. injection Hb as <-. now injection Ht as <-.
+    + destruct (merge_keys suppress top dt ns ks g path) as [[ks' w]| | |] eqn:Hm; try discriminate.
+      destruct q as [|k q].
+      * cbn [bk_at tree_at] in Hb, Ht. injection Hb as <-. now injection Ht as <-.
+      * cbn [bk_at tree_at] in Hb, Ht. exact (IH _ _ _ _ Hm _ _ _ Hb Ht).
+  - intros f path ks' ws H q b0 t Hb. destruct q; discriminate.
+  - intros k b IHb r IHr f path ks' ws H q b0 t Hb Ht. cbn [merge_keys] in H.
+    destruct (merge_value suppress top dt ns b
+                (fst match forest_get f k with
+                     | Some v => (v, [])
+                     | None => (Null, if is_implicit dt then [WMissing top ns (path ++ [k])] else [])
+                     end) (path ++ [k])) as [[b1 w1]| | |] eqn:Hv; try discriminate.
+    destruct (merge_keys suppress top dt ns r f path) as [[r1 w2]| | |] eqn:Hr; try discriminate.
+    destruct q as [|k0 q]; [discriminate|].
+    rewrite bks_at_cons in Hb. rewrite forest_at_cons in Ht. destruct (k0 =? k) eqn:He.
+    + apply N.eqb_eq in He. subst k0. destruct (forest_get f k) as [t'|]; [|discriminate].
+      cbn [fst] in Hv. exact (IHb _ _ _ _ Hv _ _ _ Hb Ht).
+    + rewrite <- forest_at_cons in Ht. exact (IHr _ _ _ _ Hr _ _ _ Hb Ht).
+Qed.
+
+(* the group/value shape of the builder keys is the default file's, and merging keeps it *)
+Lemma mk_kind_mut : forall dflt ns,
+  (forall t path b, mk_value dflt ns path t = Ok b ->
+     forall q, option_map bk_is_group (bk_at b q)
+               = option_map (fun x => match x with Group _ => true | _ => false end) (tree_at t q))
+  /\ (forall f path ks, mk_keys dflt ns path f = Ok ks ->
+     forall q, option_map bk_is_group (bks_at ks q)
+               = option_map (fun x => match x with Group _ => true | _ => false end) (forest_at f q)).
+Proof.
+  intros dflt ns. apply tree_forest_mutind.
+  - intros p path b H q. cbn [mk_value] in H. injection H as <-. destruct q; reflexivity.
+  - intros path b H. discriminate.
+  - intros g IH path b H q. cbn [mk_value] in H.
+    destruct (mk_keys dflt ns path g) as [ks| | |] eqn:Hk; try discriminate. injection H as <-.
+    destruct q as [|k q]; [reflexivity|]. cbn [bk_at tree_at]. apply (IH _ _ Hk).
+  - intros path ks H q. cbn [mk_keys] in H. injection H as <-. destruct q; reflexivity.
+  - intros k t IHt r IHr path ks H q. cbn [mk_keys] in H.
+    destruct (mk_value dflt ns (path ++ [k]) t) as [b| | |] eqn:Hv; try discriminate.
+    destruct (mk_keys dflt ns path r) as [bs| | |] eqn:Hr; try discriminate. injection H as <-.
+    destruct q as [|k0 q]; [reflexivity|].
+    rewrite bks_at_cons, forest_at_cons. cbn [forest_get]. destruct (k0 =? k).
+    + apply (IHt _ _ Hv).
+    + rewrite (IHr _ _ Hr). now rewrite forest_at_cons.
+Qed.
+
+Lemma merge_kind_mut : forall suppress top dt ns,
+  (forall b v path b' ws, merge_value suppress top dt ns b v path = Ok (b', ws) ->
+     forall q, option_map bk_is_group (bk_at b' q) = option_map bk_is_group (bk_at b q))
+  /\ (forall ks f path ks' ws, merge_keys suppress top dt ns ks f path = Ok (ks', ws) ->
+     forall q, option_map bk_is_group (bks_at ks' q) = option_map bk_is_group (bks_at ks q)).
+Proof.
+  intros suppress top dt ns. apply bk_bks_mutind.
+  - intros p d v path b' ws H q. cbn [merge_value] in H.
+    destruct v as [x| |g]; [| |discriminate]; injection H as <- <-; destruct q; reflexivity.
+  - intros fk ks IH v path b' ws H q. cbn [merge_value] in H.
+    destruct v as [x| |g]; [discriminate| |]; unfold finish_locale in H.
+    + destruct (merge_keys suppress top dt ns ks (dummy_forest fk) path) as [[ks' w]| | |] eqn:Hm; try discriminate.
+      injection H as <- <-. destruct q as [|k q]; [reflexivity|]. cbn [bk_at]. apply (IH _ _ _ _ Hm).
+    + destruct (merge_keys suppress top dt ns ks g path) as [[ks' w]| | |] eqn:Hm; try discriminate.
+      injection H as <- <-. destruct q as [|k q]; [reflexivity|]. cbn [bk_at]. apply (IH _ _ _ _ Hm).
+  - intros f path ks' ws H q. cbn [merge_keys] in H. now injection H as <- <-.
+  - intros k b IHb r IHr f path ks' ws H q. cbn [merge_keys] in H.
+    destruct (merge_value suppress top dt ns b
+                (fst match forest_get f k with
+                     | Some v => (v, [])
+                     | None => (Null, if is_implicit dt then [WMissing top ns (path ++ [k])] else [])
+                     end) (path ++ [k])) as [[b1 w1]| | |] eqn:Hv; try discriminate.
+    destruct (merge_keys suppress top dt ns r f path) as [[r1 w2]| | |] eqn:Hr; try discriminate.
+    injection H as <- <-. destruct q as [|k0 q]; [reflexivity|].
+    rewrite !bks_at_cons. destruct (k0 =? k); [apply (IHb _ _ _ _ Hv) | apply (IHr _ _ _ _ Hr)].
+Qed.
+
+(** if all locales merge without error, no locale holds a group where the default holds a value
+    or a value where the default holds a group (at a path reachable through groups of both) *)
+Theorem ok_no_mismatch : forall ext suppress ns dflt df rest ks ws,
+  check_locales_inner ext suppress ns ((dflt, df) :: rest) = Ok (ks, ws) ->
+  forall l f q dtree t, In (l, f) rest -> forest_at df q = Some dtree -> forest_at f q = Some t ->
+    match dtree, t with Leaf _, Group _ => False | Group _, Leaf _ => False | _, _ => True end.
+Proof.
+  intros ext suppress ns dflt df rest ks ws H l f q dtree t Hin Hd Ht. cbn [check_locales_inner] in H.
+  destruct (mk_keys dflt ns [] df) as [ks0| | |] eqn:Hk; try discriminate.
+  pose proof (proj2 (mk_kind_mut dflt ns) _ _ _ Hk) as Hkind0.
+  assert (Hgen : forall rest ks0 ks ws,
+            (forall q, option_map bk_is_group (bks_at ks0 q)
+                       = option_map (fun x => match x with Group _ => true | _ => false end) (forest_at df q)) ->
+            merge_all ext suppress dflt ns ks0 rest = Ok (ks, ws) -> In (l, f) rest ->
+            exists b0', kind_ok b0' t = true
+                        /\ bk_is_group b0' = match dtree with Group _ => true | _ => false end).
+  { clear H Hin Hk Hkind0 ks ws ks0 rest.
+    intros rest0. induction rest0 as [|[l0 f0] rest0 IH]; intros ks0 ks ws Hkind Hm Hin; [contradiction|].
+    cbn [merge_all] in Hm.
+    destruct (merge_locale suppress l0 (choose_default_to ext suppress dflt l0) ns ks0 f0 []) as [[ks1 w1]| | |] eqn:Hl;
+      try discriminate.
+    destruct (merge_all ext suppress dflt ns ks1 rest0) as [[ks2 w2]| | |] eqn:Hr; try discriminate.
+    unfold merge_locale, finish_locale in Hl.
+    destruct (merge_keys suppress l0 (choose_default_to ext suppress dflt l0) ns ks0 f0 []) as [[ks3 w3]| | |] eqn:Hk3;
+      try discriminate.
+    injection Hl as <- _.
+    destruct Hin as [Heq|Hin].
+    - injection Heq as -> ->.
+      pose proof (Hkind q) as Hq. rewrite Hd in Hq. cbn [option_map] in Hq.
+      destruct (bks_at ks0 q) as [b0'|] eqn:Hb; [|discriminate]. cbn [option_map] in Hq. injection Hq as Hg.
+      exists b0'. split; [|assumption].
+      exact (proj2 (merge_ok_kinds_mut _ _ _ _) _ _ _ _ _ Hk3 _ _ _ Hb Ht).
+    - apply (IH ks3 ks2 w2); [|assumption|assumption].
+      intros q'. rewrite (proj2 (merge_kind_mut _ _ _ _) _ _ _ _ _ Hk3 q'). apply Hkind. }
+  destruct (Hgen rest ks0 ks ws Hkind0 H Hin) as [b0' [Hok Hg]].
+  unfold kind_ok in Hok. destruct dtree as [x| |g]; destruct t as [y| |h]; try exact I.
+  - rewrite Hg in Hok. discriminate.
+  - rewrite Hg in Hok. discriminate.
+Qed.
